@@ -400,6 +400,45 @@ def run(ctx: Ctx) -> None:
     n12 = kinds_not_confused(ctx, "C14.R12", ("dds.introspect", "dds._introspect_indirect", "dds._retrieve_objects", "dds._eval_ctx"),
                              "two accepted modules that both read a variable named alike (LIMIT): the second one reuses the hash of the first, editing it changes no signature and the stale result is served")
     rep.floor("C14.R12", n12, 3)
+    # ---- R14: a kept function the analysis did not register is not evaluated untracked ----
+    from .common import find_api_functions, user_calls, dominated as _dom14
+    rep.rule("C14.R14", "inside an evaluation, a keep / data function whose path the analysis did not register (it lives in a module that is not accepted) is refused: the "
+                        "lookup of its signature in the evaluation's path map fails (subscript), or a lookup that can answer None is followed by a refusal before the user's function runs")
+    _top14, nested14 = find_api_functions(ctx)
+    n14 = 0
+    ncfg = cfg_of(nested14)
+    for x in nested14.own_nodes():
+        if isinstance(x, ast.Attribute) and x.attr == "requested_paths" and isinstance(x.ctx, ast.Load):
+            par = nested14.module.parent.get(x)
+            if isinstance(par, ast.Subscript) and par.value is x and isinstance(par.ctx, ast.Load):
+                n14 += 1
+                rep.ok("C14.R14", nested14.qname, f"`{unparse(par, 50)}` fails for a path the analysis did not register", nested14.loc(par))
+            elif isinstance(par, ast.Attribute) and par.attr == "get":
+                n14 += 1
+                call = nested14.module.parent.get(par)
+                asg = nested14.module.parent.get(call)
+                while asg is not None and not isinstance(asg, (ast.Assign, ast.AnnAssign, ast.FunctionDef)):
+                    asg = nested14.module.parent.get(asg)
+                var = None
+                if isinstance(asg, ast.Assign) and isinstance(asg.targets[0], ast.Name):
+                    var = asg.targets[0].id
+                guards = [b for b in ncfg.nodes if b.kind == "branch" and isinstance(b.ast, ast.Compare) and isinstance(b.ast.left, ast.Name) and b.ast.left.id == var
+                          and isinstance(b.ast.comparators[0], ast.Constant) and b.ast.comparators[0].value is None
+                          and ((isinstance(b.ast.ops[0], ast.IsNot) and b.label == "T") or (isinstance(b.ast.ops[0], ast.Is) and b.label == "F"))]
+                # `key = None if path is None else ...get(path)`: only the paths with a path matter; approximated by requiring the guard for the user call
+                bad14 = None
+                for uc in user_calls(nested14):
+                    w = _dom14(ctx, nested14, uc, guards) if guards else [f"{nested14.loc(uc)}: no test of `{var}` against None precedes the call of the user's function"]
+                    if w is not None:
+                        bad14 = (uc, w)
+                desc = f"`{unparse(call, 50)}` can answer None: the user's function is called only after `{var} is not None` held"
+                if bad14 is None:
+                    rep.ok("C14.R14", nested14.qname, desc, nested14.loc(call))
+                else:
+                    rep.bad("C14.R14", nested14.qname, desc, nested14.loc(call), bad14[1] + ["a data function of a module that is not accepted, called from an accepted pipeline, is run untracked: "
+                            "nothing is stored for it and the pipeline's signature ignores its code (no error names the module)"], "untracked-nested",
+                            what="a nested keep that the analysis did not register is evaluated untracked instead of refused")
+    rep.floor("C14.R14", n14, 1)
     from .c01 import tracked_type_table
     rep.rule("C14.R13", "as C01.R4: every plain type the value hasher supports is tracked by value when it is the type of a variable of an accepted module, and each "
                         "structural option (accept_list / accept_dict) governs its own types only")
